@@ -669,6 +669,7 @@ func checkC08(c *Ctx) {
 		r.Unk("C08.memory-append", "(*history.memory).Write", "-", "anchor not found")
 	}
 	checkC08WriteGuard(c)
+	checkSizeSentinel(c)
 }
 
 // ordinalOf numbers a call site among the calls to callee in fn (source order).
